@@ -288,9 +288,23 @@ def run(run):
         run.check("R4", "add_jump_and_call_edges|whole-worklist", ok and not exits, "outgoing edges must be built for every queued block end until the worklist is empty", F.loc(fn["body"]))
         fn = gb_fns["add_return_edges"]
         t = S.Sym(F).term(fn["body"])
-        ok = any(is_call(x, "node_indices") for x in S.subterms(t)) and any(is_call(x, "add_call_return_node_and_edges") for x in S.subterms(t))
-        filt = [x for x in S.subterms(t) if is_call(x, ("take", "skip", "step_by", "take_while", "skip_while", "find", "first", "last", "next"))]
-        run.check("R4", "add_return_edges|every-return-site", ok and not filt, "return linkage must be built for every block end that contains a return", F.loc(fn["body"]))
+        deep = list(T.walk_deep(F, fn["body"], depth=1))
+        all_nodes = any(T.is_call(x, ("node_indices", "node_references", "node_weights", "node_identifiers", "raw_nodes")) for x in deep)
+        links = any(T.is_call(x, "add_call_return_node_and_edges") for x in deep)
+        shallow = list(T.walk_deep(F, fn["body"], depth=0))
+        trunc = sorted({x["n"] for x in shallow if T.is_call(x, ("take", "skip", "step_by", "take_while", "skip_while", "find", "first", "last", "next", "nth", "find_map")) and not x.get("ds") and not (x["n"] == "next" and x.get("x"))})
+        other_src = sorted({z["fn"] for x in deep if x.get("k") == "Call" and x.get("n") in ("iter", "values", "iter_mut", "into_iter") and x.get("a") for z in T.walk(x["a"][0]) if z.get("k") == "Field" and z.get("fn") in ("subs", "blocks")})
+        key = "add_return_edges|every-return-site"
+        if all_nodes and links and not trunc:
+            run.holds("R4", key, "", F.loc(fn["body"]))
+        elif not links:
+            run.violated("R4", key, "add_return_edges never builds the call-return linkage (add_call_return_node_and_edges)", F.loc(fn["body"]))
+        elif trunc:
+            run.violated("R4", key, "return linkage must be built for every block end that contains a return; the enumeration is truncated (%s)" % trunc, F.loc(fn["body"]))
+        elif other_src and not all_nodes:
+            run.violated("R4", key, "the return sites are enumerated from the program's %s instead of the nodes of the graph: the (block, other function) copies that exist only as graph nodes get no return linkage" % other_src, F.loc(fn["body"]))
+        else:
+            run.undecided("R4", key, "enumeration of the return sites not recognised", F.loc(fn["body"]))
         # build order
         fn = gb_fns["build"]
         t = S.Sym(F).term(fn["body"])
